@@ -776,8 +776,28 @@ def _assemble_body(buf):
     return res
 
 
+# functions the driver asks to leave out of the verified text in this run (name -> reason): their extracted body was
+# rejected by the verifier's front end (a construct outside Verus's subset, e.g. after a change of the function), so
+# only their contract is kept, ASSUMED, and the run is undecided for them - the other functions are still decided
+import threading
+_TLS = threading.local()
+
+
+def set_force_degrade(d):
+    _TLS.force = dict(d or {})
+
+
+def _force_degrade():
+    return getattr(_TLS, "force", {})
+
+
 def _do_extract(repo, relfile, selector, opts, sources, log, extracted):
     n_log, n_ext = len(log), len(extracted)
+    name_ = opts["as"] or selector.split(" / ")[-1].split(":", 1)[-1]
+    if name_ in _force_degrade() and opts["spec"] and not opts.get("sigonly") and not opts.get("assumed_from"):
+        chunks = _do_extract_impl(repo, relfile, selector, opts, sources, log, extracted, lenient=True)
+        extracted[-1]["degraded"] = _force_degrade()[name_]
+        return chunks
     if opts.get("assumed_from"):
         chunks = _do_extract_impl(repo, relfile, selector, opts, sources, log, extracted, lenient=True)
         extracted[-1]["assumed_from_unit"] = opts["assumed_from"]
